@@ -121,3 +121,20 @@ def bucket_suffix(s: Setup):
         if s.restricted and list(d0[0]) != list(d0[1]):
             parts.append("alpha-ref!=beta-ref")
     return ":".join(parts)
+
+
+
+def first_order_share(rvecs, dts):
+    """Share of the smallest residual that a term *linear* in dt explains.
+
+    rvecs[i] is the residual vector at dts[i]; the last three dts must halve each time (h, h/2, h/4). With r(h) = a1 h + a2 h^2 + a3 h^3 + ...
+    two Richardson steps on s(h) = r(h)/h remove the a2 and a3 terms: s1(h) = 2 s(h/2) - s(h), a1 ~ (4 s1(h/2) - s1(h))/3. A scheme whose
+    local error is O(h^2) has a1 = 0 and the share is ~0 even where a cubic term of the opposite direction pulls the ratio of two
+    consecutive residual *norms* below 3; a scheme with a first-order error has share ~1."""
+    h0, h1, h2 = (float(d) for d in dts[-3:])
+    assert abs(h0 / h1 - 2) < 1e-12 and abs(h1 / h2 - 2) < 1e-12
+    r0, r1, r2 = (np.asarray(r) for r in rvecs[-3:])
+    s0, s1, s2 = r0 / h0, r1 / h1, r2 / h2
+    a1 = (4 * (2 * s2 - s1) - (2 * s1 - s0)) / 3
+    den = float(np.linalg.norm(r2))
+    return float(np.linalg.norm(a1)) * h2 / den if den > 0 else 0.0
